@@ -575,6 +575,33 @@ where
             orc.push(format!("ghost{}x{}", id, c));
         }
     }
+    if op == "clone" && o.res == "ok" {
+        // Clone is element-wise: exactly N calls of T::clone, on a[0], a[1], … in order
+        let calls: Vec<u64> = raw.iter().filter_map(|e| e.strip_prefix("clone:")).map(|r| r.split(':').nth(1).unwrap().split('>').next().unwrap().parse().unwrap()).collect();
+        if calls != a_ids {
+            orc.push(format!("clone-calls{:?}", calls));
+        }
+    }
+    if (op == "map" || op == "zip" || op == "fold" || op == "generate" || op == "default") && fault == "none" {
+        // once per index, ascending
+        let idx: Vec<u64> = raw
+            .iter()
+            .filter_map(|e| {
+                if let Some(r) = e.strip_prefix("take:") {
+                    r.split(':').next().and_then(|k| k.parse().ok())
+                } else if op == "fold" && (e.starts_with('g') || e.starts_with('l')) {
+                    e[1..].split(':').next().and_then(|k| k.parse().ok())
+                } else if op != "fold" && e.starts_with('t') {
+                    e[1..].split(':').next().and_then(|k| k.parse().ok())
+                } else {
+                    None
+                }
+            })
+            .collect();
+        if idx != (0..n).collect::<Vec<u64>>() {
+            orc.push(format!("call-order{:?}", idx));
+        }
+    }
     if op == "collect" {
         let polls = raw.iter().filter(|e| e.starts_with('q')).count();
         if polls > N::USIZE + 1 {
